@@ -10,7 +10,9 @@ for d in sorted(glob.glob('seeded/*/')):
     sid = os.path.basename(d.rstrip('/'))
     if sel and not any(sid.startswith(s) for s in sel): continue
     prop = sid.split('-')[0]
-    patch = os.path.abspath(d + 'patch.diff')
+    # a change written against an earlier commit of /repo is kept as written (patch.diff) next to its port to the
+    # current head (patch.rebased.diff: same mutation, context adjusted to later fix: commits)
+    patch = os.path.abspath(d + ('patch.rebased.diff' if os.path.exists(d + 'patch.rebased.diff') else 'patch.diff'))
     assert subprocess.run(['git','-C','/repo','status','--porcelain','--untracked-files=no'],capture_output=True,text=True).stdout.strip()=='' , 'repo dirty'
     if subprocess.run(['git','-C','/repo','apply',patch]).returncode != 0:
         res[sid] = {'property': prop, 'applies': False}; continue
